@@ -506,6 +506,9 @@ pub fn contexts() -> Vec<Context> {
         ("(?>(?=(?=)□)□'?(?(b)b|))□'", cat(vec![atomic(cat(vec![la(cat(vec![e(), h0()])), opt(h1()), cond(y(), y(), Node::Empty)])), h1()])),
         // two look-aheads inside a look-behind (nested save/restore of the position)
         ("(?<=(?=□)(?=□')□)", lb(cat(vec![la(h0()), la(h1()), h0()]))),
+        // two adjacent easy pieces between two hard ones (a run of literals interpreted by the VM)
+        ("(?=)□□'(?=)", cat(vec![e(), h0(), h1(), e()])),
+        ("(a)□□'\\1", cat(vec![grp(x()), h0(), h1(), Node::Backref(1)])),
         // atomic / possessive
         ("(?>□)", atomic(h0())),
         ("(?>□)□'", cat(vec![atomic(h0()), h1()])),
